@@ -714,6 +714,42 @@ def run_idem_scenario(idx, sc):
         shutil.rmtree(root, ignore_errors=True)
 
 
+# ------------------------------------------------------------------------------------------------ C15 through the CLI
+
+def run_cursor_scenario(idx, sc):
+    """sc: {text, cursors}: `--cursor` on standard input and on a file; the command line must report exactly what the core
+    computes for the same text (vh cursors), cursors beyond the end map to the end of the output, and the text is unchanged"""
+    root = tempfile.mkdtemp(prefix=f"k{idx}_", dir=CLI_ROOT)
+    problems = []
+    try:
+        text = sc["text"].encode()
+        cur = ",".join(str(x) for x in sc["cursors"])
+        rc0, plain = oracle(text)
+        if rc0 != 0:
+            return [], True
+        r = run([VH, "cursors", "{}", cur], input=text.decode(), timeout=120) if False else subprocess.run([VH, "cursors", "{}", cur], input=text, stdout=subprocess.PIPE, stderr=subprocess.PIPE)
+        if r.returncode != 0:
+            return [], True
+        want = [l for l in r.stdout.decode().splitlines() if l.startswith("CURSOR=")][0]
+        what = f"--cursor {cur[:80]} text={sc['text'][:60]!r}"
+        p = os.path.join(root, "k.pas")
+        with open(p, "wb") as fh:
+            fh.write(text)
+        for how, (rc, out, err) in (("stdin", run_bin(["--cursor", cur], root, stdin=text)), ("file", run_bin(["--cursor", cur, "--mode", "stdout", p], root))):
+            got = [l for l in err.decode(errors="replace").splitlines() if l.startswith("CURSOR=")]
+            if rc != 0 or not got:
+                problems.append({"clause": "within_output", "detail": f"{how}: exit status {rc}, no CURSOR line ({what})"})
+                continue
+            if how == "stdin" and out != plain:
+                problems.append({"clause": "text_unchanged", "detail": f"{how}: the text differs when cursors are tracked ({what})"})
+            if got[0] != want:
+                problems.append({"clause": "beyond_end" if any(x > len(text) for x in sc["cursors"]) and got[0].split(",")[:-0 or None] != want.split(",") and all(a == b for a, b, x in zip(got[0][7:].split(","), want[7:].split(","), sc["cursors"]) if x <= len(text)) else "same_offset_in_token",
+                                 "detail": f"{how}: the command line reports {got[0][:120]}, the core computes {want[:120]} for the same text (output length {len(plain)}) ({what})"})
+        return problems, False
+    finally:
+        shutil.rmtree(root, ignore_errors=True)
+
+
 # ------------------------------------------------------------------------------------------------ C09 through the CLI
 
 def run_eol_scenario(idx, sc):
